@@ -7,7 +7,7 @@
 (* Nothing about outcomes is decided here; the recorded behaviour is judged by SemaphoreTrace.tla.  *)
 EXTENDS Integers, Sequences, FiniteSets, TLC, Json
 
-CONSTANTS NSteps,                   \* number of steps of the emitted scripts
+CONSTANTS NSteps, MinSteps,         \* scripts of MinSteps..NSteps steps are emitted
           AcqW, TryW, RelW,        \* weights <<num, size>> used by the three kinds of calls
           Timeouts,                \* in ms; the smallest one is "short"
           MaxAcq, MaxTry, MaxRel   \* at most so many steps of a kind per script
@@ -31,5 +31,5 @@ Init == script = <<>>
 Next == Len(script) < NSteps /\ \E st \in Steps : Allowed(script, st) /\ script' = Append(script, st)
 Spec == Init /\ [][Next]_script
 
-EmitScen == Len(script) = NSteps => PrintT(<<"EDGE", ToJson([script |-> script])>>)
+EmitScen == Len(script) >= MinSteps => PrintT(<<"EDGE", ToJson([script |-> script])>>)
 =============================================================================
